@@ -2,21 +2,21 @@
 
 package pppoe
 
-// C04 harness for pkg/pppoe: CookieManager.Generate/Validate and ParseTags.
+// C04 harness for pkg/pppoe: CookieManager as a black box (the AC-Cookie is an opaque token: no byte layout is
+// assumed, no cookie is forged here) and ParseTags.
 //
-//   ck <secret-hex> <ttl_ns> <mac-hex|-> <svlan> <cvlan> <query>...
-//        query = <src>/<mut>/<mac>/<svlan>/<cvlan>
-//        src   = g                          the cookie returned by the real Generate for the case tuple
-//              | f,<dt>,<mac>,<sv>,<cv>     forged here (independent HMAC) for that tuple at second now-dt
-//        mut   = id | x<i>.<mask> | t<n> | a<hex>
-//     -> now=<unix second> c0=<hex of the Generate cookie> r=<one 0/1 per query>
+//   sq <ttl_ns> <step>...   a history on ONE CookieManager
+//        G/<mac>/<sv>/<cv>                 Generate (the real one), remembered as g<i> (i = 0,1,..)     -> c:<hex>
+//        V/g<i>/<mut>/<mac>/<sv>/<cv>      Validate cookie g<i> after mutation <mut> for that tuple      -> 1 | 0
+//                                          mut = id | x<i>.<mask> (xor byte i, no-op beyond the end) | t<n> | a<hex>
+//        L/<ttl_ns>                        change the manager's lifetime (in-package seam)               -> -
+//        W/<k>                             wait until the k-th second after the first one               -> -
+//     -> now=<first second> <one token per step>
 //   tags <hex payload>
 //     -> err | ok n=<raw tags> ck=<hex> hu=<hex> mp=<n>
 
 import (
 	"bufio"
-	"crypto/hmac"
-	"crypto/sha256"
 	"encoding/hex"
 	"fmt"
 	"net"
@@ -45,15 +45,6 @@ func vc04Show(b []byte) string {
 	return hex.EncodeToString(b)
 }
 
-// independent transcription of the cookie layout: HMAC(mac | be16 svlan | be16 cvlan | be32 ts) | be32 ts
-func vc04Forge(secret, mac []byte, sv, cv uint16, ts uint32) []byte {
-	d := append([]byte{}, mac...)
-	d = append(d, byte(sv>>8), byte(sv), byte(cv>>8), byte(cv), byte(ts>>24), byte(ts>>16), byte(ts>>8), byte(ts))
-	h := hmac.New(sha256.New, secret)
-	h.Write(d)
-	return append(h.Sum(nil), byte(ts>>24), byte(ts>>16), byte(ts>>8), byte(ts))
-}
-
 func vc04Mutate(c []byte, mut string) []byte {
 	c = append([]byte{}, c...)
 	switch {
@@ -78,46 +69,6 @@ func vc04Mutate(c []byte, mut string) []byte {
 
 func vc04U16(s string) uint16 { n, _ := strconv.Atoi(s); return uint16(n) }
 
-func vc04Cookie(f []string) string {
-	secret := vc04Hex(f[1])
-	ttl, _ := strconv.ParseInt(f[2], 10, 64)
-	mac := net.HardwareAddr(vc04Hex(f[3]))
-	sv, cv := vc04U16(f[4]), vc04U16(f[5])
-	for attempt := 0; attempt < 20; attempt++ {
-		t0 := time.Now()
-		if ns := t0.Nanosecond(); ns < 1000 || ns > 900000000 {
-			time.Sleep(time.Duration(1000001000-ns) * time.Nanosecond)
-			continue
-		}
-		now := t0.Unix()
-		cm := &CookieManager{secret: secret, ttl: time.Duration(ttl)}
-		c0 := cm.Generate(mac, sv, cv)
-		var r strings.Builder
-		for _, q := range f[6:] {
-			p := strings.Split(q, "/")
-			var c []byte
-			if p[0] == "g" {
-				c = c0
-			} else {
-				s := strings.Split(p[0], ",")
-				dt, _ := strconv.ParseInt(s[1], 10, 64)
-				c = vc04Forge(secret, vc04Hex(s[2]), vc04U16(s[3]), vc04U16(s[4]), uint32(now-dt))
-			}
-			c = vc04Mutate(c, p[1])
-			if cm.Validate(c, net.HardwareAddr(vc04Hex(p[2])), vc04U16(p[3]), vc04U16(p[4])) {
-				r.WriteByte('1')
-			} else {
-				r.WriteByte('0')
-			}
-		}
-		if time.Now().Unix() != now {
-			continue
-		}
-		return fmt.Sprintf("now=%d c0=%s r=%s", now, vc04Show(c0), r.String())
-	}
-	return "clock-unstable"
-}
-
 // vc04WaitUntil sleeps until the wall clock is inside second `sec` (at least 100 ms into it).
 func vc04WaitUntil(sec int64) bool {
 	for {
@@ -136,15 +87,8 @@ func vc04WaitUntil(sec int64) bool {
 	}
 }
 
-// sq: a history on ONE CookieManager.
-//   sq <secret> <ttl_ns> <step>...   step = G/<mac>/<sv>/<cv>            Generate, remembered as g<i> (i = 0,1,..)
-//                                         | V/<src>/<mut>/<mac>/<sv>/<cv> Validate; src = g<i> | f,<dt>,<mac>,<sv>,<cv> (dt relative to the first second)
-//                                         | L/<ttl_ns>                    change the manager's lifetime (in-package seam)
-//                                         | W/<k>                         wait until the k-th second after the first one
-//   -> now=<first second> <one token per step: c:<hex> | 1 | 0 | ->
 func vc04Seq(f []string) string {
-	secret := vc04Hex(f[1])
-	ttl, _ := strconv.ParseInt(f[2], 10, 64)
+	ttl, _ := strconv.ParseInt(f[1], 10, 64)
 	for attempt := 0; attempt < 6; attempt++ {
 		t0 := time.Now()
 		if ns := t0.Nanosecond(); ns < 1000 || ns > 800000000 {
@@ -153,11 +97,15 @@ func vc04Seq(f []string) string {
 		}
 		base := t0.Unix()
 		cur := base
-		cm := &CookieManager{secret: secret, ttl: time.Duration(ttl)}
+		cm, err := NewCookieManager(time.Second)
+		if err != nil {
+			return "nomanager"
+		}
+		cm.ttl = time.Duration(ttl)
 		var gens [][]byte
 		outs := []string{fmt.Sprintf("now=%d", base)}
 		ok := true
-		for _, st := range f[3:] {
+		for _, st := range f[2:] {
 			p := strings.Split(st, "/")
 			switch p[0] {
 			case "G":
@@ -166,15 +114,8 @@ func vc04Seq(f []string) string {
 				outs = append(outs, "c:"+vc04Show(c))
 			case "V":
 				var c []byte
-				if p[1][0] == 'g' {
-					i, _ := strconv.Atoi(p[1][1:])
-					if i < len(gens) {
-						c = gens[i]
-					}
-				} else {
-					q := strings.Split(p[1], ",")
-					dt, _ := strconv.ParseInt(q[1], 10, 64)
-					c = vc04Forge(secret, vc04Hex(q[2]), vc04U16(q[3]), vc04U16(q[4]), uint32(base-dt))
+				if i, e := strconv.Atoi(p[1][1:]); e == nil && i < len(gens) {
+					c = gens[i]
 				}
 				c = vc04Mutate(c, p[2])
 				if cm.Validate(c, net.HardwareAddr(vc04Hex(p[3])), vc04U16(p[4]), vc04U16(p[5])) {
@@ -227,8 +168,6 @@ func vc04One(line string) (res string) {
 		return ""
 	}
 	switch f[0] {
-	case "ck":
-		return vc04Cookie(f)
 	case "tags":
 		return vc04Tags(f)
 	case "sq":
